@@ -17,6 +17,8 @@ type Recorder struct {
 	Lines int
 	Scen  int
 	Stats map[string]int
+
+	lastAtropos hash.Event
 }
 
 func NewRecorder(w io.Writer) *Recorder {
@@ -100,8 +102,27 @@ func (r *Recorder) ProcessLine(s *Scenario, in *Inst, ev *Ev, err error, blocks 
 	r.emit(l)
 	if err == nil {
 		r.Stats["accepted"]++
+		spf := idx.Frame(0)
+		if sp, ok := s.ByID[ev.SP]; ok {
+			spf = sp.Frame
+		}
+		if ev.Frame >= spf+2 && ev.SP != 0 {
+			r.Stats["roots_jumping_frames"]++
+		}
+		if ev.SP == 0 && len(ev.Ps) > 0 {
+			r.Stats["late_first_events"]++
+		}
 	} else {
 		r.Stats["rejected"]++
+	}
+	for i := range blocks {
+		if i > 0 && blocks[i].Atropos == blocks[i-1].Atropos {
+			r.Stats["atropos_of_two_frames"]++
+		}
+		if i == 0 && r.lastAtropos == blocks[i].Atropos && blocks[i].Frame > 1 {
+			r.Stats["atropos_of_two_frames"]++
+		}
+		r.lastAtropos = blocks[i].Atropos
 	}
 }
 
